@@ -81,6 +81,41 @@ let handle (p : string) : string =
         | _ -> false) outs) in
     Printf.sprintf "t=%s;qc=%d;class=ackt:timers%d" (String.concat "/" (List.map replies_s outs))
       (int_of_n (qcount st)) (min acks 3)
+  | ["resp"; kind; uid; s1; s2; s3; s4; init; seq] ->
+    let cfg = { c_model = bytes_of_hex s1; c_manu = bytes_of_hex s2; c_label = bytes_of_hex s3;
+                c_version = bytes_of_hex s4 } in
+    let hist = List.map (fun e -> fst (parse_req e)) (String.split_on_char '/' seq) in
+    let acks outs = List.length (List.filter (fun o -> match o with
+        | [(_, Some r)] -> int_of_n r.r_type = 0 | _ -> false) outs) in
+    if kind = "moving" then begin
+      (match commas init with
+       | [cv; _; y; mo; dd; hh; mi; ss] ->
+         let mc = { mc_strs = cfg; mc_codever = bytes_of_hex cv; mc_year = n_of_int (ios y); mc_mon = n_of_int (ios mo);
+                    mc_day = n_of_int (ios dd); mc_hour = n_of_int (ios hh); mc_min = n_of_int (ios mi);
+                    mc_sec = n_of_int (ios ss) } in
+         let outs, st = ml_run mc (n_of_string uid) hist ml_init in
+         let b x = if x then n_of_int 1 else N0 in
+         Printf.sprintf "t=%s;a=%s;s=%s;l=%s;class=resp:moving:acks%d" (String.concat "/" (List.map replies_s outs))
+           (nlist_s [st.ml_start; st.ml_active; b st.ml_ident; st.ml_dev_hours; st.ml_lamp_hours; st.ml_lamp_strikes;
+                     st.ml_lamp_state; st.ml_lamp_on_mode; st.ml_power_cycles; st.ml_disp_inv; st.ml_disp_level;
+                     b st.ml_pan_inv; b st.ml_tilt_inv; b st.ml_swap; st.ml_power])
+           (hex_of_bytes st.ml_label) (hex_of_bytes st.ml_lang) (min 3 (acks outs / 8))
+       | _ -> "bad-init")
+    end else if kind = "sensor" then begin
+      let st0 = { sr_ident = false; sr_sensors = cfg_sensors N0 (List.map n_of_string (commas init)) } in
+      let outs, st = sr_run cfg (n_of_string uid) hist st0 in
+      Printf.sprintf "t=%s;a=%s;id=%s;class=resp:sensor:acks%d" (String.concat "/" (List.map replies_s outs))
+        (nlist_s (sensors_dyn st.sr_sensors)) (bool01 st.sr_ident) (min 3 (acks outs / 8))
+    end else begin
+      let n = ios (String.sub kind 6 (String.length kind - 6)) in
+      match dm_run cfg (n_of_string uid) hist (dm_init (n_of_int n)) with
+      | None -> "uaf=1;class=resp:dimmer:uaf"
+      | Some (outs, st) ->
+        Printf.sprintf "t=%s;a=%s;class=resp:%s:acks%d" (String.concat "/" (List.map replies_s outs))
+          (nlist_s (List.concat (List.map (fun s -> [s.ds_active; s.ds_start; (if s.ds_ident then n_of_int 1 else N0); s.ds_mode])
+                                   st.dm_subs) @ [(if st.dm_ident then n_of_int 1 else N0); st.dm_mode]))
+          kind (min 3 (acks outs / 8))
+    end
   | ["sweep"; kind; uid; seq] ->
     let uid = n_of_string uid in
     let reqs = List.map parse_req (String.split_on_char '/' seq) in
